@@ -541,6 +541,9 @@ def _workload(ctx):
             thr = [L * 0.5, L * 1.5 + 0.1, 1e9, 0.0]
             if rc["geom"] == "axis":
                 thr += [L, L - 0.5, L + 0.5]  # exact tie and both sides
+                # ... and a hair below the (exactly representable) length: the branch is longer
+                # than the threshold, by ulps, and stays
+                thr += [float(np.nextafter(L, 0.0)), L * (1 - 5e-7), L * (1 + 5e-7)]
             else:
                 thr += [L + 0.01 * (1 + L), L - 0.01 * (1 + L)]
             for t in thr:
